@@ -527,3 +527,8 @@ MUTANTS = [
      'old': 'if(zck->prep_hash_type > -1 && zck->prep_hash_type != hash_type) {',
      'new': 'if(zck->prep_hash_type >= 0 && hash_type != zck->prep_hash_type) {', 'expect': None},
 ]
+
+
+# SESSION7 additions to the claim (clauses added in DESIGN section 12)
+CLAIM['technique'] += '; narrowed-operand lint on the pin comparisons'
+CLAIM['text'] += ' C07-i: no pin is compared after a narrowing conversion.'
